@@ -7,7 +7,7 @@ from __future__ import annotations
 import logging
 from typing import TYPE_CHECKING, Any, TypedDict
 
-from pyopenapi_gen.core.http_status_codes import get_exception_class_name
+from pyopenapi_gen.core.http_status_codes import get_exception_class_name, is_error_code
 from pyopenapi_gen.core.writers.code_writer import CodeWriter
 from pyopenapi_gen.helpers.endpoint_utils import (
     _get_primary_response,
@@ -482,11 +482,18 @@ class EndpointResponseHandlerGenerator:
                                 writer.write_line(f"return cast({response_type}, {data_expr})")
                         else:
                             writer.write_line("return None")
-                else:
+                elif is_error_code(status_code_val):
                     # Error responses - use human-readable exception names
                     error_class_name = get_exception_class_name(status_code_val)
                     context.add_import(f"{context.core_package_name}", error_class_name)
                     writer.write_line(f"raise {error_class_name}(response=response)")
+                else:
+                    # Declared 1xx / 3xx responses: exception aliases exist only for 4xx / 5xx, so raise the base class
+                    context.add_import(f"{context.core_package_name}.exceptions", "HTTPError")
+                    writer.write_line(
+                        'raise HTTPError(response=response, message="Unexpected status code", '
+                        "status_code=response.status_code)"
+                    )
 
                 writer.dedent()
 
